@@ -7,7 +7,7 @@ import subprocess
 import sys
 
 VERIF = os.path.dirname(os.path.dirname(os.path.abspath(__file__)))
-NEUTRALISED = {"C04-5", "C06-2", "C08-3", "C12-4", "C13-5", "C14-2", "C04-4"}
+NEUTRALISED = {"C04-5", "C06-2", "C08-3", "C12-4", "C13-5", "C14-2", "C04-4", "C01-2", "C02", "C11-3"}
 
 
 def main():
